@@ -40,7 +40,7 @@ DeclSize(sc) == CASE sc.decl = "eq" -> sc.L [] sc.decl = "lt" -> sc.L - 1
 \* kind "write": the owner is serialised (Response.Write / Request.Write / server / client)
 \* kind "replace": the stream is never written; the owner's `post` operation must close it
 \* kind "readall": the owner's Body() is called, which drains and closes the stream
-ScenarioSpace(maxL, both) ==
+ScenarioSpace(maxL) ==
   { sc \in [ owner : {"resp", "req"}, kind : {"write", "replace", "readall"}, L : 0..maxL,
              reads : UNION { Compositions(l) : l \in 0..maxL }, eofData : BOOLEAN,
              decl : {"eq", "lt", "gt", "unk"}, closer : {"none", "closer", "both"},
@@ -52,7 +52,7 @@ ScenarioSpace(maxL, both) ==
       /\ sc.panicAt <= Len(sc.reads) + (IF sc.eofData THEN 0 ELSE 1)
       /\ sc.fault = "trailer" => sc.decl = "unk"
       /\ sc.closer = "both" => sc.owner = "resp"      \* CloseWithError is a Response-side contract
-      /\ (sc.fault # "none" /\ sc.panicAt # 0) => both
+      /\ sc.fault = "none" \/ sc.panicAt = 0      \* one disturbance per scenario (see note at Step)
       /\ sc.kind # "write" => (sc.fault = "none" /\ sc.panicAt = 0 /\ sc.decl \in {"eq", "unk"} /\ ~sc.eofData) }
 
 InitSt(sc) ==
@@ -75,12 +75,19 @@ DoClose(st, withErr) ==
              !.cweCount = IF st.sc.closer = "both" THEN @ + 1 ELSE @,
              !.cweErr = IF st.sc.closer = "both" THEN withErr ELSE @]
 
+\* Note on writer faults: the writer sits behind a bufio.Writer, so the moment at which a
+\* fault in the body phase surfaces (which Read call is the last one) depends on buffering.
+\* `delivered` is therefore an UPPER bound on the body bytes that can reach the peer in a
+\* faulty scenario: the machine hands all data to the writer and reports the fault at the
+\* end-of-body step.  For the same reason a writer fault and a panicking Read are not
+\* combined in one scenario.
 Step(st) ==
   LET sc == st.sc  d == DeclSize(sc) IN
   CASE st.phase = "attached" ->
          IF sc.kind = "write" THEN [st EXCEPT !.phase = "head"]                                \* SetStream done
          ELSE IF sc.kind = "replace" THEN [st EXCEPT !.phase = "post", !.closeAfterWrite = 0]
-         ELSE [DoClose([st EXCEPT !.delivered = sc.L], FALSE) EXCEPT !.phase = "post", !.closeAfterWrite = 1]  \* Body()
+         ELSE LET s2 == DoClose([st EXCEPT !.delivered = sc.L], FALSE) IN                      \* Body()
+              [s2 EXCEPT !.phase = "post", !.closeAfterWrite = s2.closeCount]
     [] st.phase = "head" ->                                                                    \* WriteHead
          IF sc.fault = "head" THEN [st EXCEPT !.werr = TRUE, !.phase = "closing"]
          ELSE [st EXCEPT !.phase = "copy"]
@@ -91,8 +98,6 @@ Step(st) ==
                   last == sc.eofData /\ st.i = Len(sc.reads) IN
               IF d >= 0 /\ st.delivered + n > d                                                 \* CopyFixed beyond the declared size
               THEN [st EXCEPT !.delivered = d, !.werr = TRUE, !.phase = "closing"]
-              ELSE IF sc.fault = "body" /\ d < 0                                                \* CopyChunk: each chunk is flushed
-              THEN [st EXCEPT !.werr = TRUE, !.phase = "closing"]
               ELSE [st EXCEPT !.delivered = @ + n, !.i = @ + 1, !.phase = IF last THEN "eof" ELSE "copy"]
     [] st.phase = "eof" ->
          IF d >= 0 THEN (IF st.delivered # d \/ sc.fault = "body"
@@ -136,9 +141,9 @@ StInv(st) == /\ CloseAtMostOnce(st) /\ AttachedMeansOpen(st) /\ ClosedOnceAtEnd(
              /\ ExactWhenFramed(st) /\ SuccessIffFramed(st) /\ ErrorReported(st)
 
 \* ------------------------------------------------------------- state machine
-CONSTANTS MaxL, Both
+CONSTANTS MaxL
 VARIABLE st
-Init == \E sc \in ScenarioSpace(MaxL, Both) : st = InitSt(sc)
+Init == \E sc \in ScenarioSpace(MaxL) : st = InitSt(sc)
 Next == st.phase # "end" /\ st' = Step(st)
 Spec == Init /\ [][Next]_st
 Inv == StInv(st)
